@@ -335,6 +335,7 @@ def _mutate(rnd, text, strat):
 
 
 @proof("C14/mutation-corpus", functions=[(BF3, "Bf3File.read_file"), (MOD, "Bec2File.read_file"), (BF3, "Bf3File.bf2_import"),
+                                         (BF3, "Bf3File.parse_bf3_file"), (BF3, "hex2bin"),
                                          ("bec2format.configid", "ConfigId.create_from_str"), (BF3, "pfid2_filter_to_str")],
        family=fam_corpus, bounded_only=True)
 def corpus(vc):
@@ -491,3 +492,10 @@ def bf2_tagtypes(vc):
     text = "\n".join(["##Bf3Update: yes", "##Firmware: 1100 FW-NAME   1.05.07"] + body) + "\n"
     out = vc.call(B.Bf3File.bf2_import, io.StringIO(text))
     vc.prove("only-format-errors", out.returned or out.raised(E.FormatError, ValueError), repr(out.exc))
+
+
+# what the parsers' error behaviour rests on in the layers below (contracts proved under C05 / C16, obligations here too):
+# the byte reader refuses a short read with its owner's format error, and the registered AES adapter refuses empty or ragged
+# input with ValueError - never another exception type
+from pyvc.harness import reuse as _reuse_c14  # noqa: E402
+_reuse_c14("C16/adapter.bad-lengths", "C14/AES128Proxy.bad-lengths=>ValueError")
